@@ -46,9 +46,10 @@ def cases(tier, seed):
     for outcome in ('ok', 'warn', 'fail', 'ehe'):
         for entity in ('ae', 'storage-ae'):
             for hist in ('A', 'AA', 'AAA', 'AB', 'ABA'):
-                for source in ('dataset', 'file'):
+                for source in ('dataset', 'file', 'file-nouid'):
                     yield {'grid': 'B', 'cmax': 1024, 'smax': 16384, 'ts': 1, 'size': 'F+1', 'shape': 'flat', 'source': source,
-                           'recep': 'file', 'outcome': outcome, 'entity': entity, 'hist': hist, 'bound': 0, 'seg': None, 'seed': seed}
+                           'recep': 'file', 'outcome': outcome, 'entity': entity, 'hist': hist, 'bound': 0, 'seg': None, 'seed': seed,
+                           'pre_scu': (len(hist) + len(outcome)) % 2 == 0}
     # grid D: the client proposes two transfer syntaxes, the provider supports only one of them (whatever the proposal order)
     for cts in ([0, 1], [1, 2], [0, 2]):
         for sts in cts:
@@ -132,6 +133,9 @@ def make_scenario(case, tmp):
             class Srv2(applicationentity.AE):
                 on_receive_store = handle_store
             ae = assoc.make_ae('SCP', [ts], case['smax'], [], cls=Srv2)
+        if case.get('pre_scu'):
+            # the entity was configured as storage user for the same class before it was given the storage provider
+            ae.add_scu(sopclass.storage_scu, [CT])
         if case['recep'] == 'file':
             def file_scp(asce, ctx, msg):
                 return sopclass.storage_scp(asce, ctx, msg)
@@ -166,18 +170,25 @@ def make_scenario(case, tmp):
                     store = asce.get_scu(CT)
                     for k, letter in enumerate(case['hist']):
                         ds, raw = _dataset(case, insts[letter], k)
-                        if case['source'] == 'file':
+                        if case['source'] in ('file', 'file-nouid'):
                             path = os.path.join(tmp, 'src%d.dcm' % k)
                             fds = pydicom.dataset.FileDataset(path, ds, preamble=b'\0' * 128)
                             fds.file_meta = pydicom.dataset.FileMetaDataset()
                             fds.file_meta.MediaStorageSOPClassUID = CT
-                            fds.file_meta.MediaStorageSOPInstanceUID = insts[letter]
+                            if case['source'] == 'file':
+                                fds.file_meta.MediaStorageSOPInstanceUID = insts[letter]
                             fds.file_meta.TransferSyntaxUID = uid.UID(ts)
                             fds.file_meta.ImplementationClassUID = '1.2.3.4.99'
                             fds.is_implicit_VR, fds.is_little_endian = uid.UID(ts).is_implicit_VR, uid.UID(ts).is_little_endian
-                            fds.save_as(path, write_like_original=False)
-                            with open(path, 'rb') as fh:
-                                _, raw = _split_file(fh.read())
+                            # 'file-nouid': a file whose meta header lacks (0002,0003): storage_scu falls back to the data set
+                            fds.save_as(path, write_like_original=(case['source'] == 'file-nouid'))
+                            if case['source'] == 'file':
+                                with open(path, 'rb') as fh:
+                                    _, raw = _split_file(fh.read())
+                            else:
+                                with open(path, 'rb') as fh:
+                                    if not fh.read().endswith(raw):
+                                        raise common.HarnessError('source file does not end with the independently encoded data set')
                             st = store(path, k + 1)
                         else:
                             st = store(ds, k + 1)
